@@ -40,6 +40,7 @@ fn main() {
         usage();
     }
     match args[1].as_str() {
+        "noop" => {}
         "check" => {
             if args.len() < 4 {
                 usage();
